@@ -61,7 +61,7 @@ ASSUMPTIONS = [
     "an algorithm instance kept across a registration is within the quantifier (separate mechanism keys *held-instance*)",
 ]
 BUDGET = {"quick": 100, "thorough": 420}
-NCASES = {"quick": 112, "thorough": 3600}
+NCASES = {"quick": 112, "thorough": 4400}
 WORKERS = {"quick": 16, "thorough": 16}
 EVAL_COUNTER = "u_steps_compared"
 FLOORS = {
